@@ -62,3 +62,11 @@ package absnfs
 //@ ensures [one-truncation-by-path] mutlog == old(mutlog) + 1 && truncs == old(truncs) + 1 && lasttruncsize == size && lasttruncpath == n.path
 //@ also NFSProcedureHandler.handleSetattr
 //@ callassert bytes.Buffer.Bytes : [size-applied] {C01} sattr.SetSize ==> truncs > old(truncs) && lasttruncsize == sattr.Size && lasttruncpath == node.path
+// C01/C29 - handleRead fetched the attributes (whose size decides eof) BEFORE reading the data: a WRITE that extends the
+// file in between makes the reply say eof with bytes still to come, which no serial order of the two requests gives.
+// Every sequential history is unchanged, so no functional clause can tell; what can be pinned is the order: the
+// attribute fetch happens where the data has already been read. The clause names the local that the Read declares; at
+// a call that comes before that declaration the clause is out of scope, and a call-site clause that matches no call
+// is an anchor loss:
+//@ also NFSProcedureHandler.handleRead
+//@ callassert AbsfsNFS.GetAttr : [size-for-eof-fetched-after-the-data] {C01, C29} len(data) >= 0
